@@ -656,73 +656,77 @@ func c20Book(c *Ctx) {
 		return
 	}
 	decode := c.find("pkg/board/fen", "", "Decode")
-	genEqual := func(v ssa.Value, at *ssa.BasicBlock, depth int) (ssa.Value, ssa.Value, ssa.Value, bool) {
-		return c.genEqual(nb, v, at, depth)
-	}
 	bad := ""
 	n := 0
-	for _, b := range nb.Blocks {
-		for _, ins := range b.Instrs {
-			mu, ok := ins.(*ssa.MapUpdate)
-			if !ok {
-				continue
-			}
-			if _, isBool := mu.Value.(*ssa.Const); !isBool {
-				continue // the outer map's lazily created inner map
-			}
-			n++
-			key := mu.Key // the candidate move
-			pos, turn, parsed, ok := genEqual(key, b, 0)
-			if !ok {
-				bad = joinNonEmpty(bad, "the recorded move is "+pathExpr(key)+", which is not established to be a generated move equal to the parsed text")
-				continue
-			}
-			if pv := c.provenance(nb, parsed); !pv.via("ParseMove") {
-				bad = joinNonEmpty(bad, "the move compared with is not the parsed text")
-			}
-			// accepted by Position.Move on that same position
-			moveOK := false
-			for _, ge := range edgeGuards(b) {
-				ex, isEx := ge.cond.(*ssa.Extract)
-				if !isEx || ex.Index != 1 || !ge.pol {
+	// NewBook itself, or the helper of its package the line-playing loop was moved into
+	for _, host := range funcFamily(nb) {
+		host := host
+		genEqual := func(v ssa.Value, at *ssa.BasicBlock, depth int) (ssa.Value, ssa.Value, ssa.Value, bool) {
+			return c.genEqual(host, v, at, depth)
+		}
+		for _, b := range host.Blocks {
+			for _, ins := range b.Instrs {
+				mu, ok := ins.(*ssa.MapUpdate)
+				if !ok {
 					continue
 				}
-				if call, isCall := ex.Tuple.(*ssa.Call); isCall && call.Call.StaticCallee() == posMove && len(call.Call.Args) == 2 {
-					if call.Call.Args[0] == pos && sameLoad(call.Call.Args[1], key) {
-						moveOK = true
+				if _, isBool := mu.Value.(*ssa.Const); !isBool {
+					continue // the outer map's lazily created inner map
+				}
+				n++
+				key := mu.Key // the candidate move
+				pos, turn, parsed, ok := genEqual(key, b, 0)
+				if !ok {
+					bad = joinNonEmpty(bad, "the recorded move is "+pathExpr(key)+", which is not established to be a generated move equal to the parsed text")
+					continue
+				}
+				if pv := c.provenance(host, parsed); !pv.via("ParseMove") {
+					bad = joinNonEmpty(bad, "the move compared with is not the parsed text")
+				}
+				// accepted by Position.Move on that same position
+				moveOK := false
+				for _, ge := range edgeGuards(b) {
+					ex, isEx := ge.cond.(*ssa.Extract)
+					if !isEx || ex.Index != 1 || !ge.pol {
+						continue
 					}
-				}
-			}
-			if !moveOK {
-				bad = joinNonEmpty(bad, "a book move is recorded without Position.Move having accepted it on the position it was generated in")
-			}
-			// the position is the one decoded from the FEN the entry is filed under
-			pex, _ := pos.(*ssa.Extract)
-			tex, _ := turn.(*ssa.Extract)
-			var fenV ssa.Value
-			if pex != nil && tex != nil && pex.Tuple == tex.Tuple && pex.Index == 0 && tex.Index == 1 {
-				if dc, ok := pex.Tuple.(*ssa.Call); ok && dc.Call.StaticCallee() == decode && len(dc.Call.Args) == 1 {
-					fenV = dc.Call.Args[0]
-				}
-			}
-			filed := false
-			if lk, ok := mu.Map.(*ssa.Lookup); ok && fenV != nil {
-				idx := lk.Index
-				if sc, ok := idx.(*ssa.Call); ok && sc.Call.StaticCallee() != nil && sc.Call.StaticCallee().Name() == "Strip" && len(sc.Call.Args) == 1 {
-					filed = sc.Call.Args[0] == fenV
-				} else if !ok {
-					// the stripped key kept in a local
-					var defs []ssa.Value
-					resolveDefs(idx, map[ssa.Value]bool{}, &defs)
-					for _, d := range defs {
-						if sc, ok := d.(*ssa.Call); ok && sc.Call.StaticCallee() != nil && sc.Call.StaticCallee().Name() == "Strip" && len(sc.Call.Args) == 1 && sc.Call.Args[0] == fenV {
-							filed = true
+					if call, isCall := ex.Tuple.(*ssa.Call); isCall && call.Call.StaticCallee() == posMove && len(call.Call.Args) == 2 {
+						if call.Call.Args[0] == pos && sameLoad(call.Call.Args[1], key) {
+							moveOK = true
 						}
 					}
 				}
-			}
-			if !filed {
-				bad = joinNonEmpty(bad, fmt.Sprintf("the move is generated on %s but filed under %s", pathExpr(pos), pathExpr(mu.Map)))
+				if !moveOK {
+					bad = joinNonEmpty(bad, "a book move is recorded without Position.Move having accepted it on the position it was generated in")
+				}
+				// the position is the one decoded from the FEN the entry is filed under
+				pex, _ := pos.(*ssa.Extract)
+				tex, _ := turn.(*ssa.Extract)
+				var fenV ssa.Value
+				if pex != nil && tex != nil && pex.Tuple == tex.Tuple && pex.Index == 0 && tex.Index == 1 {
+					if dc, ok := pex.Tuple.(*ssa.Call); ok && dc.Call.StaticCallee() == decode && len(dc.Call.Args) == 1 {
+						fenV = dc.Call.Args[0]
+					}
+				}
+				filed := false
+				if lk, ok := mu.Map.(*ssa.Lookup); ok && fenV != nil {
+					idx := lk.Index
+					if sc, ok := idx.(*ssa.Call); ok && sc.Call.StaticCallee() != nil && sc.Call.StaticCallee().Name() == "Strip" && len(sc.Call.Args) == 1 {
+						filed = sc.Call.Args[0] == fenV
+					} else if !ok {
+						// the stripped key kept in a local
+						var defs []ssa.Value
+						resolveDefs(idx, map[ssa.Value]bool{}, &defs)
+						for _, d := range defs {
+							if sc, ok := d.(*ssa.Call); ok && sc.Call.StaticCallee() != nil && sc.Call.StaticCallee().Name() == "Strip" && len(sc.Call.Args) == 1 && sc.Call.Args[0] == fenV {
+								filed = true
+							}
+						}
+					}
+				}
+				if !filed {
+					bad = joinNonEmpty(bad, fmt.Sprintf("the move is generated on %s but filed under %s", pathExpr(pos), pathExpr(mu.Map)))
+				}
 			}
 		}
 	}
